@@ -67,7 +67,7 @@ def q_pad(shape, wmax, nmax, fresh):
                  desc=f"pad(n) on shape {shape}, starting {fresh}-fresh")
 
 
-def q_cutoff(shape, wmax, mmax):
+def q_cutoff(shape, wmax, mmax, late_first=False):
     def fn(ctx):
         b = build_rel(ctx, SHAPES[shape], pitch=(60, 61), chan=(0, 1), wait=(1, wmax))
         _wf(ctx, b)
@@ -75,6 +75,18 @@ def q_cutoff(shape, wmax, mmax):
         r = ctx.int("r", 1, mmax)
         ctx.assume(r <= m)
         seq = rel_sequence(b.msgs)
+        if late_first:
+            # the same music entered through the absolute interface with the later note first: a re-strike on the tick
+            # where the previous note of its key ends stands in front of that note-off in the message list
+            ms = []
+            for n in reversed(b.notes):
+                ms.append(on(n.ch, n.pitch, n.vel, time=n.start))
+                ms.append(off(n.ch, n.pitch, time=n.end))
+            for e in b.events:
+                m_ = e.m.copy()
+                m_.time = e.t
+                ms.append(m_)
+            seq = abs_sequence(ms)
         seq.cutoff(m, r)
         ea, da = abs_events(raw_abs(seq))
         er, dr = rel_events(raw_rel(seq))
@@ -87,7 +99,7 @@ def q_cutoff(shape, wmax, mmax):
         other = [e for e in ea if e.kind not in (ON, OFF)]
         ctx.must("cutoff_other_events", events_eq_multiset_timed(other, b.events))
         return [obs_events(ea, da), obs_events(er, dr)]
-    return Query(f"cutoff/{shape}/w{wmax}m{mmax}", fn,
+    return Query(f"cutoff/{shape}/w{wmax}m{mmax}{'/late-first' if late_first else ''}", fn,
                  ["cutoff_paired", "cutoff_notes_abs", "cutoff_notes_rel", "cutoff_other_events"],
                  desc=f"cutoff(m, r<=m) on shape {shape}")
 
@@ -177,6 +189,8 @@ def queries(tier, seed):
             if tier == "quick" and k not in (1, 2, 3, 8) and s not in ("n2ov",):
                 continue
             qs.append(q_scale(s, wmax, k))
+    qs.append(q_cutoff("n2seq", wmax, mmax, late_first=True))
+    qs.append(q_cutoff("n2sig", 12, 20, late_first=True))
     for s in (("n1t", "n2ov") if tier == "quick" else ("n1t", "n2ov", "n2rep", "n3")):
         qs.append(q_scale_symbolic(s, 12, 8))
         qs.append(q_scale(s, wmax, 2, with_meta=True))
